@@ -272,8 +272,50 @@ def render_and_track(ck: Check, n: int):
                         {"kind": "track", "dim": dim, "frames": [len(e) for e in frames], "method": method, **{k: float(v) for k, v in kw.items()}})
 
 
+def tracker_stream(ck: Check, n: int):
+    """locating droplets frame after frame through the public tracker (the same analysis with the same options, called repeatedly on one
+    object): every documented option combination on every geometry, several frames, with and without droplets"""
+    from pde import CartesianGrid, CylindricalSymGrid, ScalarField, UnitGrid
+    from droplets import droplets as D
+    from droplets.emulsions import Emulsion
+    from droplets.trackers import DropletTracker
+
+    rng = ck.rng
+    for i in range(n):
+        kind = ["c3", "cyl", "c2", "c3p", "cylp", "c2p"][i % 6]
+        if kind.startswith("c3"):
+            grid = UnitGrid([10, 10, 10], periodic=kind.endswith("p"))
+            centre = lambda: np.array([5.0, 5.0, 5.0]) + np.array([rng.uniform(-0.7, 0.7) for _ in range(3)])  # noqa: E731
+        elif kind.startswith("cyl"):
+            grid = CylindricalSymGrid(6, [0, 12], [6, 12], periodic_z=kind.endswith("p"))
+            centre = lambda: np.array([0.0, 0.0, 6.0 + rng.uniform(-0.7, 0.7)])  # noqa: E731
+        else:
+            grid = CartesianGrid([[0, 14], [0, 14]], [14, 14], periodic=kind.endswith("p"))
+            centre = lambda: np.array([7.0, 7.0]) + np.array([rng.uniform(-0.7, 0.7) for _ in range(2)])  # noqa: E731
+        modes = rng.choice([0, 2, 3]) if grid.dim > 1 else 0
+        settings = dict(refine=(i % 3 != 2), perturbation_modes=modes, threshold=rng.choice([0.5, "auto"]), minimal_radius=rng.choice([0, 1.0]))
+        frames = []
+        for f in range(3):
+            frames.append(ScalarField(grid, 0.0) if (f == 1 and i % 4 == 3) else D.DiffuseDroplet(centre(), rng.uniform(2.5, 3.2), 1.0).get_phase_field(grid))
+        case = {"kind": "tracker", "grid": repr(grid), "settings": {k: repr(v) for k, v in settings.items()}}
+        ck.case(("tracker", kind, repr(settings), tuple(fr.data.tobytes() for fr in frames)))
+        ck.count("tracker_runs")
+        tr = DropletTracker(1, **settings)
+        for f, fr in enumerate(frames):
+            try:
+                tr.handle(fr, float(f))
+            except Exception as e:  # noqa: BLE001
+                ck.fail(f"DropletTracker({settings}).handle raised {type(e).__name__}: {e} in frame {f} on {type(grid).__name__}",
+                        {"check": "locate_total", "grid": type(grid).__name__, "entry": "DropletTracker.handle", "frame": f, "error": type(e).__name__}, case)
+                break
+        else:
+            if any(not finite_droplet(d) for em in tr.data.emulsions for d in em):
+                ck.fail("the tracker recorded non-finite droplet parameters", {"check": "finite", "entry": "DropletTracker.handle"}, case)
+
+
 def run_cases(ck: Check, n_locate: int, n_cyl: int, n_render: int):
     reqs, expect = [], []
+    tracker_stream(ck, max(6, n_render // 8))
     locate_stream(ck, n_locate, reqs, expect)
     cylinder_clusters(ck, n_cyl, reqs, expect)
     render_and_track(ck, n_render)
@@ -302,7 +344,7 @@ def run(ck: Check):
                "width {None, 0, 0.8} x refine (with fitted/automatic levels); malformed inputs; random cylindrical masks; rendering of all classes incl. centres on cell "
                "centres; tracking of random time courses with empty frames, both methods; non-trivial = every distinct call")
     ck.assumptions = ["exceptions raised inside scipy/numba for reasons other than the modelled preconditions are observed (and reported), not excluded by proof",
-                      "periodic cylindrical rendering is affected by known finding D12 (C03) but does not raise"]
+                      "periodic cylindrical grids included (D12 repaired)"]
     ck.lean = lean_stage("C09", leanchecker=not ck.quick)
     try:
         run_cases(ck, ck.budget(350, 6000), ck.budget(150, 3000), ck.budget(60, 1000))
